@@ -24,7 +24,7 @@ THEOREMS = [
 LEAN_MODULES = ["PorepyVerif.C24.Props"]
 AUDIT = "PorepyVerif/C24/Audit.lean"
 DRIVER = "PorepyVerif/C24/Driver.lean"
-N = {"quick": 400, "thorough": 12000}
+N = {"quick": 400, "thorough": 9000}
 RULE = ("family 'mock' (88%): histories of 1-30 calls (add_subdomains / add_interface / remove_subdomain / "
         "replace_subdomains_and_interfaces with sd_map of 0-3 items and/or interface_map, interleaved with queries and copy()) on a "
         "MixedDimensionalGrid over 2-12 tiny grids of dimension 0-3 (PointGrid, CartGrid) and mortar grids of dimension 0-2, created in an order "
@@ -116,8 +116,9 @@ class _World:
         np, pp = _PP["np"], _PP["pp"]
         fracs = [np.array([[0, 2], [1, 1]]), np.array([[1, 1], [0, 2]])]
         mdg0 = pp.meshing.cart_grid(fracs, np.array([2, 2]))
-        self.grids = sorted(mdg0._subdomain_data, key=lambda g: g.id)
-        self.mortars = sorted(mdg0._interface_data, key=lambda m: m.id)
+        # insertion order of the assembled md-grid = creation order of its grids / mortar grids
+        self.grids = list(mdg0._subdomain_data)
+        self.mortars = list(mdg0._interface_data)
         for how, k in case["derived"]:
             g = self.grids[k]
             h = pp.refinement.refine_grid_1d(g, ratio=2) if how == "refine" else g.copy()
